@@ -57,7 +57,9 @@ G4 == [g : {"tablerow"}, len : 0..L, cols : {None} \cup (0..(L + 1)), lim : {Non
 G5 == [g : {"coll"}, coll : {"nil", "undef", "empty", "map0", "map1", "map3"}]
 G6 == [g : {"cycle"}, len : 1..L, nvals : 1..3, grouped : BOOLEAN, twice : BOOLEAN]
 G7 == {x \in [g : {"nest"}, outer : 1..3, inner : 1..3, sig : {"break", "continue"}, at : 1..3] : x.at <= x.inner}
-Cases == G1 \cup G2 \cup G3 \cup G4 \cup G5 \cup G6 \cup G7
+\* a loop containing a cycle is itself executed several times (nested in another loop): each execution starts afresh
+G8 == [g : {"cycnest"}, outer : 1..3, len : 1..L, nvals : 2..3, grouped : BOOLEAN]
+Cases == G1 \cup G2 \cup G3 \cup G4 \cup G5 \cup G6 \cup G7 \cup G8
 
 ModFields(x) ==
   (IF "off" \in DOMAIN x /\ x.off # None THEN [off |-> Lit(IntV(x.off))] ELSE <<>>)
@@ -96,6 +98,11 @@ ProgOf(x) ==
                  body |-> <<cyc>> \o (IF x.twice THEN <<cyc>> ELSE <<>>) \o (IF x.grouped THEN <<other>> ELSE <<>>)],
                 \* a second loop starts its cycles afresh
                 [t |-> "for", tag |-> "for", var |-> X, coll |-> Var(A), lim |-> Lit(IntV(2)), body |-> <<cyc>>] >>
+    [] x.g = "cycnest" ->
+         << [t |-> "for", tag |-> "for", var |-> Y, coll |-> [t |-> "range", a |-> Lit(IntV(1)), b |-> Lit(IntV(x.outer))],
+             body |-> << [t |-> "for", tag |-> "for", var |-> X, coll |-> Var(A),
+                          body |-> << [t |-> "cycle", vals |-> SubSeq(CycVals, 1, x.nvals)] @@ (IF x.grouped THEN [group |-> <<103>>] ELSE <<>>) >>],
+                         T(<<124>>) >>] >>
     [] x.g = "nest" ->
          << [t |-> "for", tag |-> "for", var |-> Y, coll |-> [t |-> "range", a |-> Lit(IntV(1)), b |-> Lit(IntV(x.outer))],
              body |-> << T(<<60>>),
@@ -108,7 +115,7 @@ ProgOf(x) ==
 
 MapN(n) == MapV([i \in 1..n |-> << <<106 + i>>, IntV(i) >>])        \* keys k, l, m
 EnvOf2(x) ==
-  CASE x.g \in {"grid", "signal", "tablerow", "cycle"} -> << <<A, Arr(Ints(x.len))>>, <<X, Str(<<111>>)>> >>
+  CASE x.g \in {"grid", "signal", "tablerow", "cycle", "cycnest"} -> << <<A, Arr(Ints(x.len))>>, <<X, Str(<<111>>)>> >>
     [] x.g = "coll" -> (CASE x.coll = "nil" -> << <<A, Nil>> >>
                           [] x.coll = "undef" -> <<>>
                           [] x.coll = "empty" -> << <<A, Arr(<<>>)>> >>
@@ -164,6 +171,8 @@ DeclOut(x) ==
                         \o (IF x.grouped THEN (IF k % 2 = 1 THEN <<117>> ELSE <<118>>) ELSE <<>>)
              n2 == IF x.len < 2 THEN x.len ELSE 2
          IN  Flatten([k \in 1..x.len |-> iter(k)]) \o Flatten([k \in 1..n2 |-> CycVals[((k - 1) % x.nvals) + 1]])
+    [] x.g = "cycnest" ->
+         Flatten([o \in 1..x.outer |-> Flatten([k \in 1..x.len |-> CycVals[((k - 1) % x.nvals) + 1]]) \o <<124>>])
     [] x.g = "nest" ->
          LET inner == IF x.sig = "break" THEN Flatten([i \in 1..(x.at - 1) |-> IntText(i)])
                       ELSE Flatten([i \in 1..x.inner |-> IF i = x.at THEN <<>> ELSE IntText(i)])
@@ -210,6 +219,7 @@ IdOf(x) ==
     [] x.g = "tablerow" -> "row-" \o ToString(x.len) \o "-" \o ToString(x.cols) \o "-" \o ToString(x.lim)
     [] x.g = "coll" -> "coll-" \o x.coll
     [] x.g = "cycle" -> "cyc-" \o ToString(x.len) \o "-" \o ToString(x.nvals) \o "-" \o ToString(x.grouped) \o "-" \o ToString(x.twice)
+    [] x.g = "cycnest" -> "cycnest-" \o ToString(x.outer) \o "-" \o ToString(x.len) \o "-" \o ToString(x.nvals) \o "-" \o ToString(x.grouped)
     [] x.g = "nest" -> "nest-" \o ToString(x.outer) \o "-" \o ToString(x.inner) \o "-" \o x.sig \o "-" \o ToString(x.at)
 
 EmitCase == st.status # "run" =>
